@@ -415,6 +415,20 @@ class Unit:
                 self.do_type(s[len("//@type"):].strip(), org)
                 i += 1
                 continue
+            if s.startswith("//@expectbody"):
+                mm = re.match(r"//@expectbody\s+(\S+)\s*::\s*(.*?)\s*::\s*(\w+)\s*::\s*(.*)$", s)
+                if not mm:
+                    raise ExtractError("bad //@expectbody " + s)
+                f = self.rf(mm.group(1))
+                cands = f.find_fn(mm.group(2), mm.group(3))
+                if len(cands) != 1 or cands[0].body_open is None:
+                    raise ExtractError("anchor lost: fn %s for //@expectbody" % mm.group(3))
+                body = strip_comments(f.src[cands[0].body_open + 1:cands[0].end - 1])
+                if norm(body) != norm(mm.group(4)):
+                    raise ExtractError("anchor lost: body of %s is no longer `%s`" % (mm.group(3), mm.group(4)))
+                self.log["R6 body of %s checked textually: %s" % (mm.group(3), mm.group(4))] = 1
+                i += 1
+                continue
             if s.startswith("//@const"):
                 self.do_const(s[len("//@const"):].strip(), org)
                 i += 1
@@ -520,6 +534,18 @@ class Unit:
                 rw.count("R5 private field made pub (visibility only)")
                 return mm.group(1) + "pub " + mm.group(2)
             text = re.sub(r"(?m)^(\s*)([a-z_][A-Za-z0-9_]*\s*:)", mkpub, text)
+        if it.kind == "struct" and it.body_open is None and "(" in text:
+            a0 = text.index("(")
+            toks_ = tokenize(text[a0:])
+            e0 = a0 + toks_[match_close(toks_, 0)].start
+            fields = split_top_commas(text[a0 + 1:e0])
+            newf = []
+            for fdecl in fields:
+                if not re.match(r"pub\b", fdecl):
+                    rw.count("R5 private field made pub (visibility only)")
+                    fdecl = "pub " + fdecl
+                newf.append(fdecl)
+            text = text[:a0 + 1] + ", ".join(newf) + text[e0:]
         drops = [d for d in str(opts.get("drop", "")).split(",") if d]
         for d in drops:
             pat = re.compile(r"(?m)^\s*(pub\s+)?%s\s*:[^\n]*,\s*$" % re.escape(d))
